@@ -56,7 +56,7 @@ struct Heap {
     void init(const char *t)
     {
         tag = t;
-        held.clear();
+        fresh_clear(held);
         ranks.clear();
         next_id = 0;
         cstl_heap_init(&h, cmp_cb, &g_priv_token, offsetof(Elem, hn));
@@ -191,7 +191,7 @@ void apply(Heap &hp, CaseCtx &cx, int op, uint8_t a, uint8_t b, int K, size_t ma
         ClearCtx cc{&hp, &expect, 0, false};
         g_clear_ctx = &cc;
         size_t n = hp.held.size();
-        hp.held.clear();
+        fresh_clear(hp.held);
         LIB(cstl_heap_clear(&hp.h, clear_cb));
         g_clear_ctx = nullptr;
         TRACE("%s clear (n=%zu) callbacks=%zu", hp.tag, n, cc.calls);
